@@ -1,8 +1,9 @@
 import PV.Model.HashX.Dispatch
-import PV.Spec.HashX
+import PV.Spec.HashXStd
 import PV.Driver.Util
 /-! driver for the crypto-hash family, SHA-3 and GOST part (C11x); line protocol of `harness/hash.c`.
-    One answer line per op = the *model's* (streaming) answer; when the one-shot spec of the bytes
+    One answer line per op = the *model's* (streaming) answer; when the one-shot spec (`PV.Spec.HashXStd`: the sponge over Keccak-f[1600] written from FIPS 202, the GOST
+    iteration over χ written from GOST R 34.11-94 — nothing shared with the model but byte views) of the bytes
     updated since creation / the last reset (before the first read) answers differently the line is
     suffixed with ` SPECDIFF <spec answer>`.
     `updz N` feeds `N` zero bytes as ONE update through `updateZeros` (proved equal to `update` on
@@ -13,6 +14,9 @@ namespace PV.Driver.HashX
 open PV.HashX
 
 def specLimit : Nat := 2 ^ 24
+/-- the standard-structured GOST spec (ψ on 256-bit numbers, P on byte lists) runs at ≈ 0.1 MB/s; above this size
+    the spec column uses `Spec.gost` (same iteration over the model's step function; `gost_step_is_standard`) -/
+def gostStdLimit : Nat := 2 ^ 15
 
 inductive Seg where
   | bytes (b : Bytes)
@@ -37,11 +41,11 @@ structure Live where
   sp : SpecSide := {}
 
 def algOf : String → Option (Impl × (Bytes → Bytes))
-  | "sha3-224" => some (sha3_224, Spec.sha3_224)
-  | "sha3-256" => some (sha3_256, Spec.sha3_256)
-  | "sha3-384" => some (sha3_384, Spec.sha3_384)
-  | "sha3-512" => some (sha3_512, Spec.sha3_512)
-  | "gost" => some (gost, Spec.gost)
+  | "sha3-224" => some (sha3_224, SpecStd.sha3_224)
+  | "sha3-256" => some (sha3_256, SpecStd.sha3_256)
+  | "sha3-384" => some (sha3_384, SpecStd.sha3_384)
+  | "sha3-512" => some (sha3_512, SpecStd.sha3_512)
+  | "gost" => some (gost, fun m => if m.length ≤ gostStdLimit then SpecStd.gost m else Spec.gost m)
   | _ => none
 
 def SpecSide.note (l : SpecSide) (s : Seg) (n : Nat) : SpecSide :=
